@@ -18,7 +18,9 @@ def run(cmd, seed=1, tier='quick', inp=None, timeout=900):
     args = [BIN, cmd, '--seed', str(seed), '--tier', tier]
     if inp is not None:
         args += ['--input', json.dumps({k: str(v) for k, v in inp.items()})]
-    p = subprocess.run(args, capture_output=True, text=True, timeout=timeout)
+    env = dict(os.environ)
+    env.setdefault('VERIF_SCRATCH', os.path.join(ROOT, 'build', 'replay-scratch'))
+    p = subprocess.run(args, capture_output=True, text=True, timeout=timeout, env=env)
     last = [l for l in p.stdout.strip().split('\n') if l.startswith('{')]
     if not last:
         # the real code crashed the process (abort / stack overflow): that is itself an observation
